@@ -150,7 +150,7 @@ func run(c *lib.Ctx) error {
 		return lib.Infra("class representatives must be valid UTF-8")
 	}
 	exS, exD := c.Pick(6, 7), 1
-	simN, simD, simS := c.Pick(250, 10000), c.Pick(2, 3), 40
+	simN, simD, simS := c.Pick(250, 4000), c.Pick(2, 3), 40
 	var ex, sim [][]string
 	var e1, e2 error
 	var wg sync.WaitGroup
